@@ -23,6 +23,7 @@ func propC10(c *Ctx) {
 	c.ruleC10MacroRemoved()
 	c.ruleC10CopyReset()
 	c.ruleC10CopyIdentity()
+	c.ruleMemoCoverage("C10-MEMO-KEY-COVERS") // the copies of a pasted directive share its coordinates: a memo keyed by them confuses the copies
 	c.ruleC10RulesWithBody()
 	c.ruleNextDirectiveRecognised("C10-NEXT-DIRECTIVE") // a PASTE after an implicit Description must be seen
 	// the copies a PASTE makes share the coordinates of the macro body: "same offset" does not mean "same directive"
